@@ -764,6 +764,61 @@ def validate(ctx: Ctx, records, inputs):
     ctx.extra["records_flagged"] = len(flagged)
 
 
+def binding_selftest(ctx: Ctx, records):
+    """Binding mutants (DESIGN.md 8): corrupt one logged field of real, accepted records; TLC must reject each."""
+    def find(pred):
+        return next((copy.deepcopy(r) for r in records if pred(r)), None)
+
+    cases = []
+    r = find(lambda r: r["out"]["obsN"][0] == 1 and r["p"]["los"] == 1)
+    if r:
+        r["p"]["los"] = 0
+        cases.append(("ObservationAllowed_impl", r))
+    r = find(lambda r: any(m["t"] == 0 and m["r"] not in ("slew",) and r["p"][m["r"]] == 0 for m in r["out"]["miss"]))
+    if r:
+        r["p"][r["out"]["miss"][0]["r"]] = 1
+        cases.append(("MissReasonTrue_impl", r))
+    r = find(lambda r: r["out"]["bs"] == 1 and r["p"]["slew"] == 1)
+    if r:
+        r["out"]["bs"] = 0
+        cases.append(("BoresightUpdatedIffSlew_impl", r))
+    r = find(lambda r: len(r["out"]["miss"]) == 1 and r["out"]["obsN"][0] == 0)
+    if r:
+        r["out"]["miss"] = r["out"]["miss"] * 2
+        cases.append(("ExactlyOneMissForPrimary_impl", r))
+    r = find(lambda r: len(r["bg"]) >= 1 and r["out"]["obsN"][1] == 0 and r["bg"][0]["fov"] == 0)
+    if r:
+        r["out"]["miss"] = [*r["out"]["miss"], {"t": 1, "r": "fov"}]
+        cases.append(("BackgroundOnlyObservations_impl", r))
+    r = find(lambda r: r["out"]["meas"] and max(r["out"]["meas"]) <= 100)
+    if r:
+        r["out"]["meas"] = [101]
+        cases.append(("Measurement_impl", r))
+    r = find(lambda r: len(r["bg"]) >= 1 and r["out"]["obsN"][1] == 1 and r["p"]["slew"] == 1)
+    if r:
+        r["p"]["slew"] = 0
+        for b in r["bg"]:
+            b["slew"] = 0
+        r["out"].update(bs=0, obsN=[0, *r["out"]["obsN"][1:]], miss=[{"t": 0, "r": "slew"}], meas=r["out"]["meas"][-1:])
+        cases.append(("BackgroundNeedsSlew_impl", r))
+    if len(cases) < 5:
+        raise tlc.MachineryError(f"binding self-test: only {len(cases)} corruptible records found")
+    d = ctx.sub("binding")
+    (d / "records.json").write_text(json.dumps([c[1] for c in cases]))
+    res = tlc.require_ok(tlc.run_tlc("TraceSensorChain", trace_cfg(), d, workers=2, cont=True,
+                                     env={"RECORDS_FILE": "records.json"}, timeout=900))
+    ctx.add_tlc(res, "binding self-test: corrupted records must be rejected")
+    hit = {}
+    for inv, states in res.invariant_violations:
+        mm = re.findall(r"/\\ i = (\d+)", "\n".join(states))
+        if mm:
+            hit.setdefault(int(mm[-1]) - 1, set()).add(inv)
+    missed = [exp for k, (exp, _) in enumerate(cases) if exp not in hit.get(k, set())]
+    if missed:
+        raise tlc.MachineryError(f"binding self-test: corrupted records not rejected for {missed}")
+    ctx.extra["binding_mutants_rejected"] = [c[0][:-5] for c in cases]
+
+
 # ----------------------------------------------------------------------------- entry points
 def run(ctx: Ctx):
     from .. import sched
@@ -802,6 +857,7 @@ def run(ctx: Ctx):
     coverage_selftest(ctx, cov)
     t2 = time.time()
     validate(ctx, records, inputs)
+    binding_selftest(ctx, records)
     ctx.extra["wall_breakdown_s"] = {"drive": round(t0 - ctx.t0, 1), "wait_for_spec_level": round(t1 - t0, 1),
                                      "trace_validation": round(time.time() - t2, 1)}
     ctx.extra["attempts"] = stats
